@@ -30,7 +30,12 @@ func s1FixOps(key uint16) []op32 {
 	ops = append(ops, opAddInt(uint32(base)|64))
 	s := atomVals(shapes.S4095, key)
 	ops = append(ops, opAddMany("s4095", s), opAddMany("s4095rev", reversed(s)))
-	for _, r := range [][2]uint64{{1, 63}, {20000, 30000}, {0, 65536}, {63, 65}} {
+	// a 4-value run and its two ends: a run chunk at the run/array size boundary (2+4 < 2*4, but not < 2*3)
+	for _, p := range []uint32{100, 103} {
+		x := uint32(base) | p
+		ops = append(ops, opRemove(x), opCheckedAdd(x))
+	}
+	for _, r := range [][2]uint64{{1, 63}, {20000, 30000}, {0, 65536}, {63, 65}, {100, 104}} {
 		ops = append(ops, opAddRange(base+r[0], base+r[1]), opRemoveRange(base+r[0], base+r[1]), opFlip(base+r[0], base+r[1]))
 	}
 	ops = append(ops, maintenanceOps()...)
@@ -146,6 +151,9 @@ func runC02(c *Ctx) {
 		s3.Deadline = c.Budget(115, 1400)
 		scs = append(scs, s3)
 	}
+	pb := pairBFS("two owners sharing every chunk: each equals its own history", q, 3, false)
+	pb.Deadline = c.Budget(119, 1500)
+	scs = append(scs, pb)
 	c.R.Assume("values outside the alphabets are represented by one value per branch condition in the code (DESIGN.md section 3)")
 	runScenarios(c, scs...)
 }
